@@ -38,23 +38,107 @@ package pass_table
 // credOK(v, p): the stored value v accepts password p.
 //@ pure func credOK(v string, p string) bool = split2ok(v) && knownVerify(schemeOf(v)) && verifyOK(schemeOf(v), p, hashOf(v))
 
+// The verifier / generator registries (package-level maps, filled at initialisation and never changed - assumed):
+// a function is registered under s exactly when the scheme is known, and it is the function of that scheme.
+//@ uninterp func schemeOfVerifier(f FuncHashVerify) string
+//@ uninterp func schemeOfGenerator(f FuncHashCompute) string
+//@ axiom verify-registry: forall s string :: (has(HashVerify, s) && HashVerify[s] != nil) == knownVerify(s)
+//@ axiom verify-registry-scheme: forall s string :: knownVerify(s) ==> schemeOfVerifier(HashVerify[s]) == s
+//@ axiom compute-registry: forall s string :: has(HashCompute, s) == knownCompute(s)
+//@ axiom compute-registry-scheme: forall s string :: knownCompute(s) ==> HashCompute[s] != nil && schemeOfGenerator(HashCompute[s]) == s
 // AuthPlain succeeds exactly when the name normalises, a value is stored under its key, and that value accepts the
 // password (no decision is taken on a lookup error).
+//@ ghost var gLookupErr error
 //@ extern func (*Auth).AuthPlain#Lookup$call(t module.Table, ctx context.Context, s string) (val string, ok bool, err error)
+//@   modifies gLookupErr
+//@   ensures gLookupErr == err
 //@   ensures err == nil ==> ok == gHas[s] && (ok ==> val == gCreds[s])
 //@ extern func (*Auth).AuthPlain#SplitN$call(s string, sep string, n int) []string
 //@   ensures (len(result) == 2) == split2ok(s)
 //@   ensures len(result) == 2 ==> result[0] == schemeOf(s) && result[1] == hashOf(s)
-//@ extern func (*Auth).AuthPlain#hashVerify$call(pass string, hashSalt string) error
-//@   ensures (result == nil) == verifyOK(gScheme, pass, hashSalt)
-// gScheme: the scheme whose verifier was fetched from the registry (set by the registry lookup; ghost).
-//@ ghost var gScheme string
+//@ extern func (*Auth).AuthPlain#HashVerify$call(pass string, hashSalt string) error
+//@   ensures (result == nil) == verifyOK(schemeOfVerifier(hashVerify), pass, hashSalt)
 //@ func (*Auth).AuthPlain
 //@   prop C14
 //@   nopanic
 //@   requires a != nil && a.table != nil
-//@   modifies gScheme
+//@   modifies gLookupErr
 //@   ensures result == nil ==> precisOK(username) && gHas[precisKey(username)] && credOK(gCreds[precisKey(username)], password)
-//@   ensures !precisOK(username) || (gLookupErr == nil && !gHas[precisKey(username)]) ==> result != nil
-//@   ensures precisOK(username) && gLookupErr == nil && gHas[precisKey(username)] && !credOK(gCreds[precisKey(username)], password) ==> result != nil
+//@   ensures !precisOK(username) ==> result != nil
+//@   ensures precisOK(username) && gLookupErr == nil && !gHas[precisKey(username)] ==> result != nil
+//@   ensures precisOK(username) && gLookupErr == nil && gHas[precisKey(username)] ==> (result == nil) == credOK(gCreds[precisKey(username)], password)
 //@   assert-call (module.Table).Lookup : $t == a.table && $s == precisKey(username)
+
+// Account management: each operation changes exactly the entry of the normalised user name (or nothing on failure).
+//@ pure func onlyKey(k string) bool = forall j string :: j != k ==> gHas[j] == old(gHas)[j] && gCreds[j] == old(gCreds)[j]
+//@ pure func credsSame() bool = gHas == old(gHas) && gCreds == old(gCreds)
+//@ extern func (*Auth).CreateUserHash#Lookup$call(t module.MutableTable, ctx context.Context, s string) (val string, ok bool, err error)
+//@   ensures err == nil ==> ok == gHas[s] && (ok ==> val == gCreds[s])
+//@ extern func (*Auth).CreateUserHash#SetKey$call(t module.MutableTable, k string, v string) error
+//@   modifies gHas, gCreds
+//@   ensures result == nil ==> gHas == store(old(gHas), k, true) && gCreds == store(old(gCreds), k, v)
+//@   ensures result != nil ==> credsSame()
+//@ extern func (*Auth).SetUserPassword#SetKey$call(t module.MutableTable, k string, v string) error
+//@   modifies gHas, gCreds
+//@   ensures result == nil ==> gHas == store(old(gHas), k, true) && gCreds == store(old(gCreds), k, v)
+//@   ensures result != nil ==> credsSame()
+//@ extern func (*Auth).DeleteUser#RemoveKey$call(t module.MutableTable, k string) error
+//@   modifies gHas, gCreds
+//@   ensures result == nil ==> gHas == store(old(gHas), k, false) && (forall j string :: j != k ==> gCreds[j] == old(gCreds)[j])
+//@   ensures result != nil ==> credsSame()
+// The generator fetched from the registry computes the hash of its scheme.
+//@ extern func (*Auth).CreateUserHash#HashCompute$call(opts HashOpts, pass string) (h string, err error)
+//@   ensures (err == nil) == computeOK(hashAlgo, opts, pass)
+//@   ensures err == nil ==> h == computed(hashAlgo, opts, pass)
+//@ extern func (*Auth).SetUserPassword#HashCompute$call(opts HashOpts, pass string) (h string, err error)
+//@   ensures (err == nil) == computeOK("bcrypt", opts, pass)
+//@   ensures err == nil ==> h == computed("bcrypt", opts, pass)
+//@ func (*Auth).CreateUserHash
+//@   prop C14
+//@   requires a != nil && a.table != nil
+//@   modifies gHas, gCreds
+//@   ensures result == nil ==> precisOK(username) && knownCompute(hashAlgo) && !old(gHas)[precisKey(username)] && computeOK(hashAlgo, opts, password)
+//@   ensures result == nil ==> gHas[precisKey(username)] && gCreds[precisKey(username)] == hashAlgo + ":" + computed(hashAlgo, opts, password) && onlyKey(precisKey(username))
+//@   ensures result != nil ==> credsSame()
+//@ func (*Auth).SetUserPassword
+//@   prop C14
+//@   requires a != nil && a.table != nil
+//@   modifies gHas, gCreds
+//@   ensures result == nil ==> precisOK(username) && gHas[precisKey(username)] && onlyKey(precisKey(username))
+//@   ensures result == nil ==> (exists o HashOpts :: computeOK("bcrypt", o, password) && gCreds[precisKey(username)] == "bcrypt:" + computed("bcrypt", o, password))
+//@   ensures result != nil ==> credsSame()
+//@ func (*Auth).DeleteUser
+//@   prop C14
+//@   requires a != nil && a.table != nil
+//@   modifies gHas, gCreds
+//@   ensures result == nil ==> precisOK(username) && !gHas[precisKey(username)] && onlyKey(precisKey(username))
+//@   ensures result != nil ==> credsSame()
+// History: a stored value "scheme:hash(p)" written by CreateUserHash / SetUserPassword accepts exactly p, so after
+// any sequence of these operations AuthPlain succeeds exactly with the password most recently set for the key (the
+// per-operation contracts above compose over histories because each changes only its own key).
+//@ lemma stored-value-accepts-only-its-password prop C14: forall s string, o HashOpts, p string, q string :: knownCompute(s) && computeOK(s, o, p) ==> (credOK(s + ":" + computed(s, o, p), q) == (p == q))
+
+// bcrypt (the scheme used for new passwords): the bytes handed to the library are exactly the bytes of the password
+// (all of them, unchanged) on both the hashing and the verifying side, the stored value is exactly what the library
+// returned, and the verdict is the library's. (That the library's compare accepts exactly the hashed bytes is A-crypto.)
+//@ ghost var gGenLen int
+//@ ghost var gGenAt Map[int,int]
+//@ ghost var gGenOut []byte
+//@ extern func computeBcrypt#GenerateFromPassword$call(password []byte, cost int) (h []byte, err error)
+//@   modifies gGenLen, gGenAt, gGenOut
+//@   ensures gGenLen == len(password) && (forall k int :: 0 <= k && k < len(password) ==> gGenAt[k] == password[k]) && gGenOut == h
+//@ func computeBcrypt
+//@   prop C14
+//@   modifies gGenLen, gGenAt, gGenOut
+//@   ensures result1 == nil ==> gGenLen == len(pass) && (forall k int :: 0 <= k && k < len(pass) ==> gGenAt[k] == at(pass, k))
+//@   ensures result1 == nil ==> len(result0) == len(gGenOut) && (forall k int :: 0 <= k && k < len(result0) ==> at(result0, k) == gGenOut[k])
+//@ ghost var gCmpResult error
+//@ extern func verifyBcrypt#CompareHashAndPassword$call(hashedPassword []byte, password []byte) error
+//@   modifies gCmpResult
+//@   ensures gCmpResult == result
+//@ func verifyBcrypt
+//@   prop C14
+//@   modifies gCmpResult
+//@   ensures result == gCmpResult
+//@   assert-call golang.org/x/crypto/bcrypt.CompareHashAndPassword : len($password) == len(pass) && (forall k int :: 0 <= k && k < len(pass) ==> $password[k] == at(pass, k))
+//@   assert-call golang.org/x/crypto/bcrypt.CompareHashAndPassword : len($hashedPassword) == len(hashSalt) && (forall k int :: 0 <= k && k < len(hashSalt) ==> $hashedPassword[k] == at(hashSalt, k))
